@@ -920,6 +920,18 @@ def signedView (H : Bytes → Bytes) (canSign : Bytes → Bool) (rs : Nat) (e : 
 def coveredHashes (H : Bytes → Bytes) (canSign : Bytes → Bool) (rs : Nat) (es : List Exch) : List (Bytes × ResponseHashes) :=
   (es.filter fun e => canSign e.url).map fun e => (e.url, hashOf H rs e)
 
+theorem bs_coveredHashes_cons_pos (H : Bytes → Bytes) (canSign : Bytes → Bool) (rs : Nat) (e : Exch) (rest : List Exch)
+    (hc : canSign e.url = true) :
+    coveredHashes H canSign rs (e :: rest) = (e.url, hashOf H rs e) :: coveredHashes H canSign rs rest := by
+  unfold coveredHashes
+  rw [List.filter_cons, if_pos hc, List.map_cons]
+
+theorem bs_coveredHashes_cons_neg (H : Bytes → Bytes) (canSign : Bytes → Bool) (rs : Nat) (e : Exch) (rest : List Exch)
+    (hc : ¬ canSign e.url = true) :
+    coveredHashes H canSign rs (e :: rest) = coveredHashes H canSign rs rest := by
+  unfold coveredHashes
+  rw [List.filter_cons, if_neg hc]
+
 theorem bs_signExchanges_spec (H : Bytes → Bytes) (canSign : Bytes → Bool) (rs : Nat) :
     ∀ (es done : List Exch) (hashes : List (Bytes × ResponseHashes)) (exs : List Exch) (hs : List (Bytes × ResponseHashes)),
     signExchanges H canSign rs es done hashes = some (exs, hs) →
@@ -933,7 +945,7 @@ theorem bs_signExchanges_spec (H : Bytes → Bytes) (canSign : Bytes → Bool) (
     intro done hashes exs hs h
     simp only [signExchanges, Option.some.injEq, Prod.mk.injEq] at h
     obtain ⟨rfl, rfl⟩ := h
-    exact ⟨by simp, by simp [coveredHashes], fun e he => by cases he, fun h => h⟩
+    exact ⟨by simp, by simp [coveredHashes], (fun e he => by cases he), (fun h => h)⟩
   | cons e rest ih =>
     intro done hashes exs hs h
     rw [signExchanges] at h
@@ -953,15 +965,13 @@ theorem bs_signExchanges_spec (H : Bytes → Bytes) (canSign : Bytes → Bool) (
           · rw [if_pos hany] at h; cases h
           · rw [if_neg hany] at h
             obtain ⟨h1, h2, h3, h4⟩ := ih _ _ _ _ h
-            have hrec : ({ variantsValue := [], hashes := [{ headerSha256 := hd,
-                payloadIntegrityHeader := Mice.Enc.draft03.integrityIdentifier }] } : ResponseHashes) = hashOf H rs e := by
+            have hrec : (⟨[], [⟨hd, Mice.Enc.draft03.integrityIdentifier⟩]⟩ : ResponseHashes) = hashOf H rs e := by
               unfold hashOf; rw [hhs]; rfl
             have hurl : (piExch H rs e).url = e.url := rfl
             rw [hrec, hurl] at h2 h4
             refine ⟨?_, ?_, ?_, ?_⟩
             · rw [h1, List.map_cons, signedView, if_pos hc, List.append_assoc, List.singleton_append]
-            · rw [h2, coveredHashes, List.filter_cons, if_pos hc, List.map_cons, List.append_assoc, List.singleton_append]
-              rfl
+            · rw [h2, bs_coveredHashes_cons_pos _ _ _ _ _ hc, List.append_assoc, List.singleton_append]
             · intro x hx hcx
               rcases List.mem_cons.mp hx with rfl | hx
               · exact ⟨hno, hd, hhs⟩
@@ -981,8 +991,7 @@ theorem bs_signExchanges_spec (H : Bytes → Bytes) (canSign : Bytes → Bool) (
       obtain ⟨h1, h2, h3, h4⟩ := ih _ _ _ _ h
       refine ⟨?_, ?_, ?_, h4⟩
       · rw [h1, List.map_cons, signedView, if_neg hc, List.append_assoc, List.singleton_append]
-      · rw [h2, coveredHashes, List.filter_cons, if_neg hc]
-        rfl
+      · rw [h2, bs_coveredHashes_cons_neg _ _ _ _ _ hc]
       · intro x hx hcx
         rcases List.mem_cons.mp hx with rfl | hx
         · exact absurd hcx hc
@@ -1003,8 +1012,8 @@ theorem bs_headerSha256_length {H : Bytes → Bytes} (hlen : ∀ x, (H x).length
     ((headerSha256 H r).getD []).length < 2 ^ 63 := by
   unfold headerSha256
   cases encodeRespHeader r with
-  | error e => decide
-  | ok b => simp only [Option.getD_some, hlen]; decide
+  | error e => show (0 : Nat) < 2 ^ 63; decide
+  | ok b => show (H b).length < 2 ^ 63; rw [hlen]; decide
 
 theorem bs_covered_good {H : Bytes → Bytes} (hlen : ∀ x, (H x).length = 32) (canSign : Bytes → Bool) (rs : Nat)
     (es : List Exch) (hurls : ∀ e ∈ es, canSign e.url = true → utf8Valid e.url = true ∧ e.url.length < 2 ^ 63) :
@@ -1013,11 +1022,16 @@ theorem bs_covered_good {H : Bytes → Bytes} (hlen : ∀ x, (H x).length = 32) 
   obtain ⟨e, he, rfl⟩ := List.mem_map.mp hp
   obtain ⟨hmem, hc⟩ := List.mem_filter.mp he
   obtain ⟨u1, u2⟩ := hurls e hmem hc
-  refine ⟨u1, u2, by decide, by simp [hashOf], by decide, ?_⟩
-  intro ri hri
-  simp only [hashOf, List.mem_singleton] at hri
-  subst hri
-  exact ⟨bs_headerSha256_length hlen _, by decide +kernel, by decide⟩
+  refine ⟨u1, u2, ?_, ?_, ?_, ?_⟩
+  · show (0 : Nat) < 2 ^ 63; decide
+  · simp [hashOf]
+  · show 1 + 1 * 2 < 2 ^ 64; decide
+  · intro ri hri
+    simp only [hashOf, List.mem_singleton] at hri
+    subst hri
+    refine ⟨bs_headerSha256_length hlen _, ?_, ?_⟩
+    · show utf8Valid Mice.Enc.draft03.integrityIdentifier = true; decide +kernel
+    · show Mice.Enc.draft03.integrityIdentifier.length < 2 ^ 63; decide
 
 /-! ### completeness of the two verifier steps -/
 
@@ -1069,7 +1083,7 @@ theorem bs_verifyExchange_complete {env : VEnv} {ver : BVer} {ss : SignedSubset}
     (hdec : Mice.decodeAll env.H .draft03 e.resp.body (get e.resp.headers hDigest) 16384 = (p, .eof)) :
     verifyExchange env ver [(ss, auth)] e = .verified p auth.cert := by
   unfold verifyExchange
-  simp only [List.findSome?_cons, List.findSome?_nil, hfind, Option.map_some]
+  simp only [List.findSome?_cons, hfind, Option.map_some]
   rw [if_neg (by rw [hvv, hrh]; simp)]
   simp only [hrh, List.headD_cons, hhs]
   rw [if_neg (by simp), if_neg (by simp [hid]), if_neg hne, hdec]
@@ -1081,10 +1095,11 @@ theorem bs_verifyExchange_unsigned {env : VEnv} {ver : BVer} {ss : SignedSubset}
   simp only [List.findSome?_cons, List.findSome?_nil, hfind, Option.map_none]
 
 theorem bs_piExch_digest (H : Bytes → Bytes) (rs : Nat) (e : Exch) (hno : values e.resp.headers hDigest = []) :
-    get (piExch H rs e).resp.headers hDigest = (Mice.encode H .draft03 e.resp.body rs).2 := by
-  unfold get piExch
+    Http.get (piExch H rs e).resp.headers hDigest = (Mice.encode H .draft03 e.resp.body rs).2 := by
+  unfold Http.get piExch
   simp only
-  rw [Sxg.inv_values_add_same, Sxg.inv_values_add_other _ _ _ _ (Sxg.inv_digestName_ne .draft03), hno]
+  have hne : canonicalKey Sxg.hContentEncoding ≠ canonicalKey hDigest := Sxg.inv_digestName_ne .draft03
+  rw [Sxg.inv_values_add_same, Sxg.inv_values_add_other _ _ _ _ hne, hno]
   rfl
 
 /-! ### the main theorem -/
@@ -1193,5 +1208,65 @@ theorem bs_honest_verifies (env : VEnv) (hlen : ∀ x, (env.H x).length = 32) (c
       have : e2.url = e.url := eq_of_beq hxk
       rw [this, hc] at hc2
       cases hc2
+
+/-- the same with the verification time given in unix seconds: `date ≤ ts ≤ expires` (at `ts = expires` only
+    with zero nanoseconds) -/
+theorem bs_honest_verifies_unix (env : VEnv) (hlen : ∀ x, (env.H x).length = 32) (canSign : Bytes → Bool) (rs : Nat)
+    (hrs : 1 ≤ rs) (hrs2 : rs ≤ 16384) (b b' : Bundle) (certs : List AugCert) (vurl : Bytes) (date expires : Int)
+    (sig msg : Bytes) (ts tn : Int)
+    (hfirst : b.signatures = none)
+    (hadd : addSignature env.H canSign rs b certs vurl date expires sig = some (b', msg))
+    (hkey : env.keyOk (certs.headD default).cert = true)
+    (hsv : env.sigVerify (certs.headD default).cert msg sig = true)
+    (hvu : utf8Valid vurl = true) (hvl : vurl.length < 2 ^ 63) (hok : env.urlOk vurl = true)
+    (hd : 0 ≤ date ∧ date < 2 ^ 62) (hx : 0 ≤ expires ∧ expires < 2 ^ 62) (hlife : expires - date ≤ 604800)
+    (htn : 0 ≤ tn) (hts1 : date ≤ ts) (hts2 : ts < expires ∨ (ts = expires ∧ tn = 0))
+    (hurls : ∀ e ∈ b.exchanges, canSign e.url = true → utf8Valid e.url = true ∧ e.url.length < 2 ^ 63)
+    (hn : b.exchanges.length < 2 ^ 64) :
+    ∃ (sigs' : Sigs) (ss : SignedSubset) (hne : certs ≠ []),
+      b'.signatures = some sigs' ∧
+      newVerifier env sigs' (GoTime.ofUnix ts tn) b.version = some [(ss, certs.head hne)] ∧
+      ss = { validityUrl := vurl, authSha256 := env.H (certs.head hne).cert, date := date, expires := expires,
+             subsetHashes := sortHashes (coveredHashes env.H canSign rs b.exchanges) } ∧
+      b'.exchanges = b.exchanges.map (signedView env.H canSign rs) ∧
+      ∀ e ∈ b.exchanges,
+        (canSign e.url = true →
+          verifyExchange env b.version [(ss, certs.head hne)] (piExch env.H rs e) =
+            .verified e.resp.body (certs.head hne).cert) ∧
+        (canSign e.url = false → verifyExchange env b.version [(ss, certs.head hne)] e = .unsigned) := by
+  obtain ⟨_, w2, w3⟩ := bs_window_iff date expires ts tn ⟨by omega, hd.2⟩ ⟨by omega, hx.2⟩ ⟨by omega, by omega⟩
+  have ht1 : GoTime.before (GoTime.ofUnix ts tn) (GoTime.ofUnix date 0) = false := by
+    cases hb : GoTime.before (GoTime.ofUnix ts tn) (GoTime.ofUnix date 0) with
+    | false => rfl
+    | true => have := w2.mp hb; omega
+  have ht2 : GoTime.after (GoTime.ofUnix ts tn) (GoTime.ofUnix expires 0) = false := by
+    cases hb : GoTime.after (GoTime.ofUnix ts tn) (GoTime.ofUnix expires 0) with
+    | false => rfl
+    | true => have := w3.mp hb; omega
+  exact bs_honest_verifies env hlen canSign rs hrs hrs2 b b' certs vurl date expires sig msg _ hfirst hadd hkey hsv
+    hvu hvl hok hd hx hlife ht1 ht2 hurls hn
+
+/-- why `0 ≤ date` is a hypothesis: `SignedSubset.Encode` writes the dates with `EncodeInt` (a negative one
+    as major type 1) and `decodeSignedSubset` reads them with `DecodeUint`; a subset signed with a date before
+    1970 is therefore refused by every verifier (likewise for `expires`, which is read after `date`). -/
+theorem bs_negative_date_unreadable (urlOk : Bytes → Bool) (s : SignedSubset) (out : Bytes)
+    (henc : encodeSignedSubset s = .ok out) (hneg : s.date < 0) (hlo : -(2 : Int) ^ 64 ≤ s.date) :
+    decodeSignedSubset urlOk out = none := by
+  rw [bs_encodeSignedSubset_eq] at henc
+  injection henc with henc
+  subst henc
+  unfold decodeSignedSubset
+  rw [C12.roundtrip_mapHeader 5 (by decide)]
+  simp only
+  rw [decodeSubsetFields, bs_decode_tstr _ _ (by decide +kernel) (by decide)]
+  simp only
+  rw [if_neg (by decide), if_neg (by decide), if_pos trivial]
+  have : decodeUint (encodeInt s.date ++ (Bundle.tstr kExpires ++ (encodeInt s.expires ++ (Bundle.tstr kAuthSha256 ++
+      (encodeBytes s.authSha256 ++ (Bundle.tstr kValidityUrl ++ (textOrEmpty s.validityUrl ++ (Bundle.tstr kSubsetHashes ++
+        mapOrHeader (s.subsetHashes.map hashesEntry))))))))) = none := by
+    unfold encodeInt
+    rw [if_neg (by omega)]
+    exact decodeOfType_wrong_type (encodeHead_isHead 1 _ (by decide) (by omega)) (by decide) _
+  rw [this]
 
 end WebPkg.BSig
